@@ -9,5 +9,5 @@ one() { d=$(realpath $1); id=$(basename $d | sed 's/-[0-9]*$//');
   out=$(tools/try_seeded.sh $d $id 2>&1 | grep "check_rc=" | head -1); rc=$(echo "$out" | grep -o 'check_rc=[0-9]*' | cut -d= -f2)
   echo "$(basename $d) $( [ "$rc" = 1 ] && echo caught || echo "NOT-CAUGHT rc=$rc") $(echo "$out" | sed 's/.*check_rc=[0-9]* *//')"; }
 export -f one
-{ echo "# re-validation of stored seeded changes against the checks at /verif $(git log --format=%h -1) and /repo $head"; ls -d seeded/C* | xargs -P $par -I{} bash -c "one {}" | sort; } > seeded/REVALIDATION.txt
+{ echo "# re-validation of stored seeded changes against the checks at /verif $(git log --format=%h -1) and /repo $head"; ls -d seeded/C* | grep -v "${REVAL_EXCLUDE:-NONE}" | xargs -P $par -I{} bash -c "one {}" | sort; } > seeded/REVALIDATION.txt
 grep -c " caught" seeded/REVALIDATION.txt; grep -c "NOT-CAUGHT" seeded/REVALIDATION.txt; grep -c "NOT-APPLICABLE" seeded/REVALIDATION.txt
